@@ -147,3 +147,73 @@ def skipna_dispatch(ctx: Ctx) -> None:
     (ctx.ok if good else ctx.bad)(R, g, parts[0] if parts else g.node, 'worker = partial(ufunc_axis_skipna, skipna=skipna, ufunc=ufunc, ufunc_skipna=ufunc_skipna)' if good else
                                   'the per-block worker does not bind skipna / ufunc / ufunc_skipna under their own names', key='TypeBlocks.partial')
     ctx.require(n >= 4, 'ufunc_axis_skipna result paths')
+
+
+def axis_iteration(ctx: Ctx) -> None:
+    R = 'E.axis-items'
+    ctx.rule(R, 'per path (symbolic store) of the Frame axis iterators and to_pairs: iterating axis 1 walks the rows, so the keys paired with the vectors are the index '
+             'labels and each vector is labelled by the columns; iterating axis 0 walks the columns, keyed by the column labels and labelled by the index; the vectors '
+             'come from self._blocks.axis_values(axis) with the caller\'s axis, zipped with the keys in one pass', floor=12)
+    prog = ctx.prog
+    n = 0
+
+    def axis_of(facts: tp.Dict[str, bool]) -> tp.Optional[int]:
+        a1, a0 = facts.get('axis == 1'), facts.get('axis == 0')
+        if a1 is True and a0 is not True:
+            return 1
+        if a0 is True and a1 is not True:
+            return 0
+        if a1 is False and a0 is False:
+            return None         # neither axis: the function raises or does nothing meaningful here
+        if a1 is False and a0 is None:
+            return 0            # `x if axis == 1 else y`: two-valued by the interface contract
+        if a0 is False and a1 is None:
+            return 1
+        return None
+    outer = {1: 'self._index', 0: 'self._columns'}
+    inner = {1: 'self._columns', 0: 'self._index'}
+    for m in ('_axis_array_items', '_axis_tuple_items', '_axis_series_items', '_axis_series', '_axis_tuple', 'to_pairs'):
+        f = prog.method('Frame', m, inherited=False)
+        se = SymEnv(f.node, watch=lambda x: isinstance(x, (ast.Yield, ast.YieldFrom, ast.Return)), keep_fact=lambda t: t in ('axis == 0', 'axis == 1', 'constructor is None')).run()
+        for node, worlds in se.all_sites():
+            if getattr(node, 'value', None) is None:
+                continue
+            for w in sorted(worlds):
+                ax = axis_of(se.facts(w))
+                if ax is None:
+                    continue
+                v = se.resolved(node.value, w)
+                t = norm(v)
+                problems = []
+                if m.endswith('_items'):
+                    if not (isinstance(v, ast.Call) and call_name(v) == 'zip' and len(v.args) == 2):
+                        continue
+                    k = norm(v.args[0])
+                    if k != outer[ax]:
+                        problems.append(f'for axis {ax} the vectors are keyed by `{k[:40]}`, not {outer[ax]}')
+                    src = v.args[1]
+                    if not (isinstance(src, ast.Call) and (norm(src.func) in ('self._blocks.axis_values', 'self._axis_tuple', 'self._axis_series'))
+                            and (norm(kwarg(src, 'axis')) == 'axis' or (src.args and norm(src.args[0]) == 'axis'))):
+                        problems.append(f'the vectors `{norm(src)[:50]}` are not produced for the caller\'s axis')
+                elif m == '_axis_series':
+                    if not (isinstance(v, ast.Call) and call_name(v) == 'Series'):
+                        continue
+                    nm, idx = norm(kwarg(v, 'name')), norm(kwarg(v, 'index'))
+                    if f'zip({outer[ax]}, self._blocks.axis_values(axis))' not in nm:
+                        problems.append(f'for axis {ax} each Series is named from `{nm[:60]}`, not from {outer[ax]} zipped with axis_values(axis)')
+                    if inner[ax] not in idx or outer[ax] in idx:
+                        problems.append(f'for axis {ax} each Series is labelled by `{idx[:50]}`, not by {inner[ax]}')
+                elif m == '_axis_tuple':
+                    if se.facts(w).get('constructor is None') is not True or not isinstance(v, ast.Call):
+                        continue
+                    want = f'get_tuple_constructor({inner[ax]}.values)'
+                    if want not in t:
+                        problems.append(f'for axis {ax} the tuple fields are not {inner[ax]}.values')
+                else:   # to_pairs
+                    if f'zip(tuple({outer[ax]}), ' not in t or f'zip(tuple({inner[ax]}), ' not in t or 'self._blocks.axis_values(axis)' not in t:
+                        problems.append(f'for axis {ax} the pairs are `{t[:80]}`: major keys are not {outer[ax]} / minor keys not {inner[ax]} / values not axis_values(axis)')
+                    elif t.index(f'zip(tuple({outer[ax]}), ') > t.index(f'zip(tuple({inner[ax]}), '):
+                        problems.append(f'for axis {ax} major and minor keys are nested the wrong way round')
+                n += 1
+                (ctx.bad if problems else ctx.ok)(R, f, node, '; '.join(problems) or f'axis {ax}: keyed by {outer[ax]}, labelled by {inner[ax]}', key=f'Frame.{m}@axis{ax}')
+    ctx.require(n >= 12, 'axis iterator result sites')
